@@ -391,6 +391,41 @@ func checkC18(c *run.Ctx) {
 		case 5: // no algorithm
 			_, p, _ := ed25519.GenerateKey(rand.Reader)
 			raw, alg, valid = p, nil, false
+		case 7, 8, 9:
+			// an approved pair whose key material is present but malformed (a coordinate one byte short, an empty
+			// member): it parses, and only the structural check of key validation refuses it
+			var base any
+			var a jwa.SignatureAlgorithm
+			var field, value string
+			switch how {
+			case 7:
+				kk, _ := ecdsa.GenerateKey(elliptic.P521(), rand.Reader)
+				base, a, field = kk, jwa.ES512, []string{"x", "y", "d"}[r.IntN(3)]
+				value = base64.RawURLEncoding.EncodeToString(make([]byte, 65))
+			case 8:
+				_, pk, _ := ed25519.GenerateKey(rand.Reader)
+				base, a, field, value = pk, jwa.EdDSA, []string{"x", "d"}[r.IntN(2)], ""
+			default:
+				base, a, field, value = rsaKey, jwa.PS512, []string{"n", "d"}[r.IntN(2)], ""
+			}
+			good, err := jwk.FromRaw(base)
+			must(c, err)
+			_ = good.Set(jwk.AlgorithmKey, a)
+			if kid != "" {
+				_ = good.Set(jwk.KeyIDKey, kid)
+			}
+			jb, err := json.Marshal(good)
+			must(c, err)
+			var fields map[string]any
+			must(c, json.Unmarshal(jb, &fields))
+			fields[field] = value
+			jb, _ = json.Marshal(fields)
+			if bad, err := jwk.ParseKey(jb); err == nil {
+				c.Count("members_with_malformed_key_material", 1)
+				return member{bad, kid, false}
+			}
+			// the JOSE library refused to parse it: fall back to an ordinary invalid pair
+			raw, alg, valid = rsaKey, jwa.RS256, false
 		default: // EC key with EdDSA
 			k, _ := ecdsa.GenerateKey(elliptic.P256(), rand.Reader)
 			raw, alg, valid = k, jwa.EdDSA, false
@@ -420,7 +455,7 @@ func checkC18(c *run.Ctx) {
 		for i := 0; i < nk; i++ {
 			how := r.IntN(3)
 			if r.IntN(4) == 0 {
-				how = 3 + r.IntN(4)
+				how = 3 + r.IntN(7)
 			}
 			members = append(members, mkMember(r, kidPool[r.IntN(len(kidPool))], how))
 		}
